@@ -173,3 +173,58 @@ func init() {
 		return u
 	})
 }
+
+func init() {
+	regSym("strings.Count", func(fr *frame, a []value) value {
+		s, sep := strArg(a[0]), strArg(a[1])
+		if !sep.IsConst() || sep.S == "" {
+			panic(unmodelled{"strings.Count with symbolic or empty separator"})
+		}
+		parts := symSplit(fr, s, sep, -1).([]value)
+		return len(parts) - 1
+	})
+	lastIndex := func(fr *frame, s, sep *Term) value {
+		m := fr.i.m
+		if !sep.IsConst() || sep.S == "" {
+			panic(unmodelled{"strings.LastIndex with symbolic or empty separator"})
+		}
+		if !m.decide(mkContains(s, sep)) {
+			return -1
+		}
+		head := mkVar(m.freshName("s_lih"), SStr)
+		tail := mkVar(m.freshName("s_lit"), SStr)
+		m.assume(mkEq(s, mkConcat(head, sep, tail)))
+		// last occurrence: no occurrence starts after it
+		m.assume(mkNot(mkContains(mkConcat(mkStr(sep.S[1:]), tail), sep)))
+		return intVal(mkLen(head))
+	}
+	regSym("strings.LastIndex", func(fr *frame, a []value) value { return lastIndex(fr, strArg(a[0]), strArg(a[1])) })
+	regSym("strings.LastIndexByte", func(fr *frame, a []value) value {
+		c := toTerm(a[1])
+		if !c.IsConst() {
+			panic(unmodelled{"strings.LastIndexByte with symbolic byte"})
+		}
+		return lastIndex(fr, strArg(a[0]), mkStr(string([]byte{byte(c.I.Int64())})))
+	})
+	regSym("strings.IndexByte", func(fr *frame, a []value) value {
+		c := toTerm(a[1])
+		if !c.IsConst() {
+			panic(unmodelled{"strings.IndexByte with symbolic byte"})
+		}
+		return intVal(mkIndexOf(strArg(a[0]), mkStr(string([]byte{byte(c.I.Int64())})), mkInt(0)))
+	})
+	regSym("strings.CutPrefix", func(fr *frame, a []value) value {
+		s, p := strArg(a[0]), strArg(a[1])
+		if fr.i.m.decide(mkPrefixOf(p, s)) {
+			return tuple{strVal(mkSubstr(s, mkLen(p), mkSub(mkLen(s), mkLen(p)))), true}
+		}
+		return tuple{strVal(s), false}
+	})
+	regSym("strings.CutSuffix", func(fr *frame, a []value) value {
+		s, p := strArg(a[0]), strArg(a[1])
+		if fr.i.m.decide(mkSuffixOf(p, s)) {
+			return tuple{strVal(mkSubstr(s, mkInt(0), mkSub(mkLen(s), mkLen(p)))), true}
+		}
+		return tuple{strVal(s), false}
+	})
+}
